@@ -384,6 +384,7 @@ class ManifestFile:
         self.openpgp_signature = None
         state = ManifestState.DATA
         openpgp_data = ''
+        not_dash_escaped = False
 
         for line in f:
             # NUL is never valid in a Manifest, and GnuPG treats trailing
@@ -404,6 +405,10 @@ class ManifestFile:
                     openpgp_data += line
                 # skip header lines up to the empty line
                 if line.strip():
+                    if line.startswith('NotDashEscaped:'):
+                        # GnuPG extension: the cleartext is taken
+                        # literally, "- " is not an escape there
+                        not_dash_escaped = True
                     continue
                 state = ManifestState.SIGNED_DATA
             elif state == ManifestState.SIGNED_DATA:
@@ -413,7 +418,7 @@ class ManifestFile:
                     state = ManifestState.SIGNATURE
                     continue
                 # dash-escaping, RFC 4880 says any line can suffer from it
-                if line.startswith('- '):
+                if line.startswith('- ') and not not_dash_escaped:
                     line = line[2:]
             elif state == ManifestState.SIGNATURE:
                 if verify_openpgp:
